@@ -176,6 +176,12 @@ func (w *world) liveClient(key string, c cfg) *req.Client {
 	return cl
 }
 
+// cloneLive: a new live client made by Clone() of an existing one (after that one has made exchanges).
+func (w *world) cloneLive(parentKey, key string, c cfg) {
+	p := w.live[parentKey]
+	w.live[key] = &liveState{cl: p.cl.Clone(), opened: c}
+}
+
 // do performs one exchange on the real code, contained (panic / hang -> Fatal).
 func (w *world) do(x exchange) obs {
 	w.xn++
@@ -443,6 +449,9 @@ func verdict(x exchange, o obs) (kind, what string) {
 	switch {
 	case must:
 		if w := decoded(); w != "" {
+			if s.Lenient && o.Err != "" && rewritten() == "" {
+				return "", "" // refused with a read error: a policy the content coding's RFC allows
+			}
 			return "decode", w
 		}
 	case may:
